@@ -9,5 +9,10 @@ CHECKS = {
   "note": "Trusted: the set oracles in vlib/contracts19.py. Pre-conditions are the functions' documented ones (sorted disjoint lists); the read-profile oracle is applied only where each read feature lies within delta of at most one known feature and features are longer than delta; truncate_read_to_polya only for tail positions inside the read's exons; overlaps_at_least (a heuristic predicate without set semantics) is not contracted.",
   "technique": "runtime contracts (icontract post-conditions with set-theoretic oracles) on the real functions, bounded-exhaustive workload",
  },
+ "C15": {
+  "text": "Round-trip contract on the real (de)serialisers over generated values of the format's domain (field-by-field structural comparison, value classes recorded), random record streams written by the real TmpFileAssignmentPrinter and read by both real loaders with byte-offset agreement, byte-exact re-encoding of the intermediate files of real --keep_tmp runs, and --keep_tmp -> --read_assignments reuse pairs whose outputs must be identical. Sampled, not exhaustive.",
+  "note": "Trusted: the structural comparer in vlib/checks/c15.py; penalties compared at 2^-20 (stored resolution); 65535-char strings excluded (collide with the None marker by design); read ids and chromosome names ASCII.",
+  "technique": "runtime round-trip contracts on the real serialisers + offline comparison of reuse runs (generated-value and stream workloads)",
+ },
 }
 NOT_APPLICABLE = {}
